@@ -657,3 +657,76 @@ Proof.
 Qed.
 
 End ArithRuns.
+
+(* ------------------------------------------------------------------ *)
+(* C03 + C02 together, all seven methods over Q: the raw steps of
+   primitive_with form a greedy agglomeration w.r.t. the closed-form
+   criterion of the method *)
+Definition crit_of (meth : method) (M0 : cmat Q) : mtree -> mtree -> Q -> Prop :=
+  match meth with
+  | Single => is_min_over (f_ltb QF) (cell_or 0 M0)
+  | Complete => is_max_over (f_ltb QF) (cell_or 0 M0)
+  | Average => crit_average (dd M0)
+  | Weighted => crit_weighted (dd M0)
+  | Ward => crit_ward (dd M0)
+  | Centroid => crit_centroid (dd M0)
+  | Median => crit_median (dd M0)
+  end.
+
+Lemma crit_of_sym meth M0 A B v : crit_of meth M0 A B v -> crit_of meth M0 B A v.
+Proof.
+  destruct meth; cbn [crit_of].
+  - apply min_sym. apply cell_or_sym.
+  - apply max_sym. apply cell_or_sym.
+  - apply average_sym.
+  - apply weighted_sym.
+  - apply ward_sym.
+  - apply centroid_sym.
+  - apply median_sym.
+Qed.
+
+Lemma crit_of_merge meth M0 X A B va vb md :
+  crit_of meth M0 X A va -> crit_of meth M0 X B vb -> crit_of meth M0 A B md ->
+  crit_of meth M0 X (Node A B)
+    (upd_of QF meth va vb md (tsize A) (tsize B) (if uses_size_x meth then tsize X else 0%nat)).
+Proof.
+  destruct meth; cbn [crit_of uses_size_x]; intros Ha Hb Hm.
+  - exact (@min_merge Q (f_ltb QF) qlt_trans qlt_negtrans _ X A B va vb Ha Hb).
+  - exact (@max_merge Q (f_ltb QF) qlt_trans qlt_negtrans _ X A B va vb Ha Hb).
+  - apply average_merge; assumption.
+  - apply weighted_merge; assumption.
+  - apply ward_merge; assumption.
+  - apply centroid_merge; assumption.
+  - apply median_merge; assumption.
+Qed.
+
+Lemma crit_of_leaf meth M0 x y v : x <> y -> wcell M0 x y = Some v -> crit_of meth M0 (Leaf x) (Leaf y) v.
+Proof.
+  intros Hxy Hv. destruct meth; cbn [crit_of].
+  - split; [exists x, y; cbn [leaves]; split; [left; reflexivity|]; split; [left; reflexivity|]; unfold cell_or; rewrite Hv; reflexivity|].
+    intros x' y' [<-|[]] [<-|[]]. unfold cell_or. rewrite Hv. apply qlt_irrefl.
+  - split; [exists x, y; cbn [leaves]; split; [left; reflexivity|]; split; [left; reflexivity|]; unfold cell_or; rewrite Hv; reflexivity|].
+    intros x' y' [<-|[]] [<-|[]]. unfold cell_or. rewrite Hv. apply qlt_irrefl.
+  - apply average_leaf; assumption.
+  - apply weighted_leaf; assumption.
+  - apply ward_leaf; assumption.
+  - apply centroid_leaf; assumption.
+  - apply median_leaf; assumption.
+Qed.
+
+Theorem primitive_greedy_Q (p : profile) (rt : Q -> Q) (meth : method) s d m n s' d' m' M0 :
+  primitive_with (kops_of (QFr rt) meth) p meth s d m n = Ok (s', d', m') ->
+  prologue p (square_all (kops_of (QFr rt) meth) m) n = Ok M0 ->
+  exists raw,
+    gtrace (kops_of (QFr rt) meth) (crit_of meth M0) (seq 0 (m_obs M0)) Leaf raw
+    /\ length raw = (m_obs M0 - 1)%nat
+    /\ Permutation (heights d') (map (k_rt (kops_of (QFr rt) meth)) (map (@s_dis Q) raw))
+    /\ (requires_sorting meth = false -> heights d' = map (k_rt (kops_of (QFr rt) meth)) (map (@s_dis Q) raw)).
+Proof.
+  intros H HM0.
+  apply (@primitive_greedy Q (kops_of (QFr rt) meth) p meth qlt_trans qlt_irrefl (crit_of meth M0)
+           (@crit_of_sym meth M0)
+           ltac:(intros X A B va vb md Ha Hb Hm; cbn [kops_of k_upd]; rewrite upd_QFr; apply crit_of_merge; assumption)
+           s d m n s' d' m' M0 H HM0).
+  intros x y v Hxy _ _ Hv. apply crit_of_leaf; assumption.
+Qed.
